@@ -43,7 +43,8 @@ def c13(tier='quick', seed=0):
     R = Result('validation flags undefined and cyclic references', 'all digraphs on 3 names with bodies that place the references '
                'under and/or/not at varying depth, plus random rule sets on up to 6 names (self loops, long cycles, diamonds, '
                'undefined names); check_rules() against an independent graph analysis; rule sets reported clean are evaluated '
-               'under a recursion watchdog')
+               'under a recursion watchdog; two-step histories on one enforcer (validated, then grown in place by a '
+               'non-overwriting set_rules or by a late register_default + load)')
     names = ['n0', 'n1', 'n2']
     wrappers = [lambda r: ' and '.join(r) if r else 'role:x',
                 lambda r: 'role:x or ' + ' or '.join(r) if r else 'role:x',
@@ -93,6 +94,45 @@ def c13(tier='quick', seed=0):
         R.case(ci, bad, sample=rules_text)
         if R.full:
             break
+    # histories on one long-lived enforcer: the verdict is about the rule set as it is NOW, also after it grew in place
+    # (non-overwriting set_rules, late register_default + load) since the last validation
+    import warnings
+    step = max(1, len(cases) // (150 if tier == 'quick' else 1500))
+    for ci in range(0, len(cases) - 1, step):
+        first, second = cases[ci], cases[ci + 1]
+        for how in ('update', 'late-default'):
+            e = mk_enforcer()
+            e.set_rules(policy.Rules.from_dict(first), use_conf=False)
+            outcome(e.check_rules)
+            merged = dict(first)
+            if how == 'update':
+                e.set_rules(policy.Rules.from_dict(second), overwrite=False, use_conf=False)
+                merged.update(second)
+            else:
+                with warnings.catch_warnings():
+                    warnings.simplefilter('ignore')
+                    for n, txt in second.items():
+                        if n not in merged and n not in e.registered_rules:
+                            e.register_default(policy.RuleDefault(n, txt))
+                            merged[n] = txt
+                e.use_conf = True
+                lr = outcome(e.load_rules)
+                e.use_conf = False
+                if lr[0] != 'ret':
+                    continue
+            undefined, cyclic = graph_problem(merged)
+            want_ok = not (undefined or cyclic)
+            got = outcome(e.check_rules)
+            r2 = outcome(e.check_rules, True)
+            bad = None
+            if got[0] != 'ret' or bool(got[1]) != want_ok:
+                bad = 'after %r then %s with %r: check_rules() gave %r; graph analysis of the current rule set: undefined ' \
+                      'reference=%s, reaches a cycle=%s' % (first, how, second, got[1:], undefined, cyclic)
+            elif (r2[0] == 'ret') != want_ok:
+                bad = 'after %r then %s with %r: check_rules(raise_on_violation=True) gave %r' % (first, how, second, r2[:2])
+            R.case(('history', ci, how), bad)
+            if R.full:
+                return R.d
     return R.d
 
 
